@@ -19,8 +19,9 @@ RULE = (
     "pow, rpow, cols} and scalars from {-3..3, 0.5, -2.5, 2.0, 1000}; chains reach depth 7 "
     "(quick: 4). Then a generated read schedule: (node, row expression[, column selector]) "
     "triples in any order; the root is additionally read first and last. Oracle: the same Python "
-    "operator expression applied to the fully loaded array, then NumPy indexing; values "
-    "(NaN-aware), shape and dtype exact; every derived object is a BaseEphysReader. Expressions "
+    "operator expression applied to the fully loaded array, then NumPy indexing; shape and "
+    "dtype exact, values exact for integer results and within 16 ulp (NaN-aware) for floating "
+    "results (NumPy's SIMD and scalar float loops differ in the last bit); every derived object is a BaseEphysReader. Expressions "
     "NumPy itself rejects on the full array (negative integer powers, out-of-range Python ints) "
     "are rejected and counted. Non-trivial: a reflected operator, or an integer dtype with / // "
     "**, or a cols op that is not last in its chain, or a node with >=2 children, or a grandchild.")
@@ -83,6 +84,21 @@ def drivers(tier):
                  examples=100000 if th else 6000)]
 
 
+def _same(what, out, exp, key):
+    """Exact for integer results; a few ulps for floating results.
+
+    NumPy's float loops (pow, divide) take SIMD or scalar code paths depending on the length and
+    strides of the block they are given, and the two paths can differ in the last bit, so the
+    same expression evaluated on the whole array and on the rows that were read need not be
+    bit-identical.  Shape and dtype stay exact."""
+    exp = np.asarray(exp)
+    if exp.dtype.kind in 'fc':
+        eps = np.finfo(exp.dtype).eps
+        same_array(what, out, exp, key=key, tol=(16 * eps, float(np.finfo(exp.dtype).tiny) * 16))
+    else:
+        same_array(what, out, exp, key=key)
+
+
 def _derive(obj, op, arg):
     if op == 'cols':
         return obj[:, S.to_cols(arg)]
@@ -125,14 +141,14 @@ def check(case):
                     out = must_return(what, lambda: lazy[k][rows, cols])
                     if isinstance(out, BaseEphysReader):
                         out = must_return(what + '[:]', lambda: out[:])
-                same_array(what, out, exp, key='node-values')
+                _same(what, out, exp, 'node-values')
             # the root again, after all derivations and reads
             last = must_return('root[:]', lambda: root[:])
             same_array('root[:] after deriving', last, A, key='root-after')
             for k in range(1, len(lazy)):
                 out = must_return('node%d[:]' % k, lambda: lazy[k][:])
-                same_array('node%d[:] (all nodes re-read at the end)' % k, out, eager[k],
-                           key='node-values-final')
+                _same('node%d[:] (all nodes re-read at the end)' % k, out, eager[k],
+                      'node-values-final')
     return None
 
 
